@@ -9,7 +9,15 @@ export VERIF_ROOT="$ROOT"
 export GOFLAGS=-mod=mod GOPROXY=off GOSUMDB=off GOTOOLCHAIN=local
 REPO="${VERIF_REPO:-/repo}"
 WORK="$ROOT/.work"
-mkdir -p "$WORK" "$ROOT/bin"
+BIN="$ROOT/bin"
+if [ "$REPO" != "/repo" ]; then
+  # a different repository copy (mutation testing): private build directory and binaries, so that
+  # concurrent runs against different copies cannot pick up each other's build
+  H=$(echo "$REPO" | md5sum | cut -c1-10)
+  WORK="$ROOT/.work/alt-$H"
+  BIN="$WORK/bin"
+fi
+mkdir -p "$WORK" "$BIN" "$ROOT/bin"
 
 build() {
   local lock="$WORK/build.lock"
@@ -30,12 +38,12 @@ build() {
   "$REPO/verifshim/rshim/rshim.go": "$ROOT/overlay/rshim/rshim.go"
 }}
 JSON
-  if ! go build $MODFLAG -tags verif -overlay "$WORK/overlay.json" -o "$ROOT/bin/check" ./cmd/check >"$WORK/build.log" 2>&1; then
+  if ! go build $MODFLAG -tags verif -overlay "$WORK/overlay.json" -o "$BIN/check" ./cmd/check >"$WORK/build.log" 2>&1; then
     cat "$WORK/build.log" >&2; echo "HARNESS-ERROR: build failed" >&2; exit 2
   fi
   if [ "${1:-}" = "C13" ]; then
     # free-running bodies under the race detector (complement of the cooperative scheduler)
-    if ! go build $MODFLAG -race -tags verif -overlay "$WORK/overlay.json" -o "$ROOT/bin/racepass" ./cmd/racepass >"$WORK/build-race.log" 2>&1; then
+    if ! go build $MODFLAG -race -tags verif -overlay "$WORK/overlay.json" -o "$BIN/racepass" ./cmd/racepass >"$WORK/build-race.log" 2>&1; then
       cat "$WORK/build-race.log" >&2; echo "HARNESS-ERROR: race build failed" >&2; exit 2
     fi
   fi
@@ -47,4 +55,5 @@ case "${1:-}" in
   "") echo "usage: run.sh <Cnn> [quick|thorough] | replay <file> | build" >&2; exit 2;;
 esac
 build "$@"
-exec "$ROOT/bin/check" "$@"
+export VERIF_BIN="$BIN"
+exec "$BIN/check" "$@"
